@@ -1,0 +1,66 @@
+//! Read-only predicate "the connection driver has something to do for this connection" (verification hook for
+//! the driver-wake oracle of the async-layer simulator, C18): would `poll_transmit`, called now, build an
+//! ack-eliciting 1-RTT packet (or arm the pacing timer for one) or a CONNECTION_CLOSE packet?
+//!
+//! The predicate UNDER-approximates `poll_transmit` on purpose (established or closing connections only, 1-RTT
+//! keys present, frames of the application data space only, not blocked by anti-amplification or by the
+//! congestion window): whenever it says `ready`, a call of `poll_transmit` does not come back empty-handed
+//! without at least arming a timer, so an oracle built on it never demands a wake-up that would be useless.
+use super::super::{Connection, State};
+use crate::packet::SpaceId;
+
+#[derive(Debug, Clone, Default, PartialEq, Eq)]
+pub struct TxReady {
+    pub ready: bool,
+    /// why not, when frames are waiting but cannot be sent now ("congestion", "anti-amplification", "no-keys")
+    pub blocked: Option<&'static str>,
+    /// the connection's state ("handshake", "established", "closed", "draining", "drained")
+    pub state: &'static str,
+}
+
+impl Connection {
+    /// Whether `poll_transmit` has an ack-eliciting 1-RTT packet or a CONNECTION_CLOSE to send (read-only)
+    pub fn verif_tx_ready(&self) -> TxReady {
+        let mut r = TxReady {
+            state: match self.state {
+                State::Handshake(_) => "handshake",
+                State::Established => "established",
+                State::Closed(_) => "closed",
+                State::Draining => "draining",
+                State::Drained => "drained",
+            },
+            ..TxReady::default()
+        };
+        match self.state {
+            State::Established => {}
+            State::Closed(_) => {
+                r.ready = self.close;
+                return r;
+            }
+            _ => return r,
+        }
+        let sp = &self.spaces[SpaceId::Data];
+        let mtu = usize::from(self.path.current_mtu());
+        let pn = self.packet_number_filter.peek(sp);
+        let frame_space_1rtt = mtu.saturating_sub(self.predict_1rtt_overhead(Some(pn)));
+        let waiting = !sp.pending.is_empty(&self.streams)
+            || sp.ping_pending
+            || sp.immediate_ack_pending
+            || self.can_send_1rtt(frame_space_1rtt);
+        if !waiting {
+            return r;
+        }
+        if sp.crypto.is_none() {
+            r.blocked = Some("no-keys");
+        } else if self.path.anti_amplification_blocked(1) {
+            r.blocked = Some("anti-amplification");
+        } else if sp.loss_probes == 0
+            && self.path.in_flight.bytes + mtu as u64 >= self.path.congestion.window()
+        {
+            r.blocked = Some("congestion");
+        } else {
+            r.ready = true;
+        }
+        r
+    }
+}
